@@ -54,7 +54,7 @@ Apply(ev) ==
        [] ev.e = "tstart" ->
             /\ alive' = TRUE
             /\ UNCHANGED <<actQ, outQ, pc, sess, chosen, executed, learned, envBest, pend, nlearnAll, rewardOK>>
-       [] ev.e \in {"flag", "join"} ->
+       [] ev.e \in {"flag", "join", "timeout"} ->       \* (a timed wait that ended empty-handed changes nothing by itself)
             UNCHANGED <<actQ, outQ, alive, pc, sess, chosen, executed, learned, envBest, pend, nlearnAll, rewardOK>>
        [] ev.e = "exit" ->
             /\ alive' = FALSE
